@@ -7,6 +7,7 @@ import (
 
 	"pgregory.net/rapid"
 
+	"verifh/gen"
 	"verifh/refamf"
 )
 
@@ -40,6 +41,8 @@ func drawIPv4(t *rapid.T, label string) string {
 		b = []byte{255, 255, 255, 255}
 	case 2:
 		b = []byte{10, 0, 0, 1}
+	case 3, 4:
+		b = gen.SpecialIPv4(t, label+"_special")
 	}
 	return fmt.Sprintf("%d.%d.%d.%d", b[0], b[1], b[2], b[3])
 }
